@@ -94,6 +94,10 @@ type Path struct {
 	frozenHit string
 	dirty     bool // wrote to worker-shared (init-time) memory
 
+	models  []*cachedModel
+	varsOf  map[int][]int // term id -> sorted variable ids
+	Sliced  int
+	CacheHits int
 	stack   []*ssa.Function
 	errStack string
 	bypass  map[*ssa.Function]int
@@ -163,7 +167,7 @@ func (p *Path) choose(conds []*smt.Term) int {
 			feas = append(feas, i)
 			continue
 		}
-		switch p.S.Check(c) {
+		switch p.feasible(c) {
 		case smt.Sat:
 			feas = append(feas, i)
 		case smt.Unknown:
@@ -264,4 +268,186 @@ func (p *Path) stackString() string {
 		sb.WriteString("  in " + p.stack[i].String() + "\n")
 	}
 	return sb.String()
+}
+
+type cachedModel struct {
+	m     map[string]smt.ModelVal
+	valid int // number of path-condition conjuncts checked against m
+	memo  smt.EvalMemo
+}
+
+// query decides sat(path condition ∧ cond), first against cached models.
+func (p *Path) query(cond *smt.Term) (smt.Result, map[string]smt.ModelVal) {
+	if cond != nil {
+		if v, ok := cond.BoolVal(); ok {
+			if !v {
+				return smt.Unsat, nil
+			}
+			cond = nil
+		}
+	}
+	asserted := p.S.Asserted()
+	keep := p.models[:0]
+	var hit map[string]smt.ModelVal
+	for _, cm := range p.models {
+		ok := true
+		for ; cm.valid < len(asserted); cm.valid++ {
+			v, evok := smt.Eval(asserted[cm.valid], cm.m, cm.memo)
+			if !evok || v != 1 {
+				ok = false
+				break
+			}
+		}
+		if !ok {
+			continue
+		}
+		keep = append(keep, cm)
+		if hit == nil {
+			if cond == nil {
+				hit = cm.m
+			} else if v, evok := smt.Eval(cond, cm.m, cm.memo); evok && v == 1 {
+				hit = cm.m
+			}
+		}
+	}
+	p.models = keep
+	if hit != nil {
+		p.CacheHits++
+		return smt.Sat, hit
+	}
+	res, m := p.S.Model(cond, p.C.Vars)
+	if res == smt.Sat && m != nil {
+		cm := &cachedModel{m: m, valid: len(asserted), memo: smt.NewMemo()}
+		p.models = append(p.models, cm)
+		if len(p.models) > 6 {
+			p.models = p.models[1:]
+		}
+	}
+	return res, m
+}
+
+// termVars returns the ids of the variables (and uninterpreted functions,
+// as negative pseudo-ids) occurring in t.
+func (p *Path) termVars(t *smt.Term) []int {
+	if p.varsOf == nil {
+		p.varsOf = map[int][]int{}
+	}
+	if v, ok := p.varsOf[t.ID]; ok {
+		return v
+	}
+	set := map[int]bool{}
+	seen := map[int]bool{}
+	var walk func(x *smt.Term)
+	walk = func(x *smt.Term) {
+		if seen[x.ID] {
+			return
+		}
+		seen[x.ID] = true
+		if v, ok := p.varsOf[x.ID]; ok {
+			for _, id := range v {
+				set[id] = true
+			}
+			return
+		}
+		switch x.Op {
+		case smt.OVar:
+			set[x.ID] = true
+		case smt.OApply:
+			// all applications of one function are related
+			h := 0
+			for _, c := range x.Name {
+				h = h*31 + int(c)
+			}
+			set[-(h&0x3fffffff)-1] = true
+		}
+		for _, a := range x.Args {
+			walk(a)
+		}
+	}
+	walk(t)
+	out := make([]int, 0, len(set))
+	for id := range set {
+		out = append(out, id)
+	}
+	p.varsOf[t.ID] = out
+	return out
+}
+
+// slice returns the path-condition conjuncts that (transitively) share
+// variables with cond.
+func (p *Path) pcSlice(cond *smt.Term) []*smt.Term {
+	asserted := p.S.Asserted()
+	rel := map[int]bool{}
+	for _, v := range p.termVars(cond) {
+		rel[v] = true
+	}
+	used := make([]bool, len(asserted))
+	var out []*smt.Term
+	for changed := true; changed; {
+		changed = false
+		for i, a := range asserted {
+			if used[i] {
+				continue
+			}
+			vs := p.termVars(a)
+			hit := false
+			for _, v := range vs {
+				if rel[v] {
+					hit = true
+					break
+				}
+			}
+			if hit {
+				used[i] = true
+				out = append(out, a)
+				for _, v := range vs {
+					if !rel[v] {
+						rel[v] = true
+						changed = true
+					}
+				}
+			}
+		}
+	}
+	return out
+}
+
+// feasible decides sat(path condition ∧ cond) without needing a model:
+// cached models first, then an independence-sliced solver query.
+func (p *Path) feasible(cond *smt.Term) smt.Result {
+	if v, ok := cond.BoolVal(); ok {
+		if v {
+			return smt.Sat
+		}
+		return smt.Unsat
+	}
+	asserted := p.S.Asserted()
+	keep := p.models[:0]
+	hit := false
+	for _, cm := range p.models {
+		ok := true
+		for ; cm.valid < len(asserted); cm.valid++ {
+			v, evok := smt.Eval(asserted[cm.valid], cm.m, cm.memo)
+			if !evok || v != 1 {
+				ok = false
+				break
+			}
+		}
+		if !ok {
+			continue
+		}
+		keep = append(keep, cm)
+		if !hit {
+			if v, evok := smt.Eval(cond, cm.m, cm.memo); evok && v == 1 {
+				hit = true
+			}
+		}
+	}
+	p.models = keep
+	if hit {
+		p.CacheHits++
+		return smt.Sat
+	}
+	p.Sliced++
+	return p.S.CheckSet(p.pcSlice(cond), cond)
 }
